@@ -916,7 +916,8 @@ class GroupBy:
             results_one_value = results[slice_]
             combined = numba_funcs._build_target_for_groupby(
                 results_one_value[0].dtype,
-                func_name,
+                # per-chunk counts are added up: a counting target would be boolean
+                "sum" if func_name in ("size", "count") else func_name,
                 len(self._result_index) + 1,
             )
             counts_one_value = counts[slice_]
